@@ -497,3 +497,84 @@ func H08_three() {
 	}
 	sv.Assert("tree-is-the-one-the-declarations-dictate", class == "ok" && shape == want)
 }
+
+// H08_cond: a user operator of arbitrary (symbolic) power next to the
+// built-in conditional, whose power is fixed (BP_COND) and which associates to
+// the right: an operator declared looser than ?: applies to the whole
+// conditional, a tighter one stays inside the branch it is written in.
+func H08_cond() {
+	p := power("bp@")
+	f := sv.Choice("fix@", 2)
+	ops := append([]oper.Operator{{Kind: "@", BP: p, Fixity: fixityOf(f)}}, oper.BuiltIn()...)
+	ctx := sv.Choice("context", 4)
+	src := [...]string{"a ? b : c @ d", "a @ b ? c : d", "a ? b @ c : d", "a ? b : c ? d : e @ f"}[ctx]
+	shape, class := parseWith(ops, src)
+	sv.Assert("never-an-internal-fault", class == "ok" || isSyntaxError(class))
+	cond := oper.BP(oper.BP_COND)
+	if p == cond {
+		sv.Reach("silent-equal-power")
+		return
+	}
+	loose := p < cond
+	var want string
+	switch ctx {
+	case 0:
+		want = "(a ? b : (c @ d))"
+		if loose {
+			want = "((a ? b : c) @ d)"
+		}
+	case 1:
+		want = "((a @ b) ? c : d)"
+		if loose {
+			want = "(a @ (b ? c : d))"
+		}
+	case 2:
+		want = "(a ? (b @ c) : d)" // between ? and : any expression is a whole
+	default:
+		want = "(a ? b : (c ? d : (e @ f)))"
+		if loose {
+			want = "((a ? b : (c ? d : e)) @ f)"
+		}
+	}
+	if class != "ok" || shape != want {
+		sv.Logf("%s: got %s (%s), expected %s", src, shape, class, want)
+	}
+	sv.Assert("conditional-and-operator-group-as-their-powers-dictate", class == "ok" && shape == want)
+}
+
+type tableCase struct {
+	ops  []oper.Operator
+	src  string
+	want string
+}
+
+// operator tables registered in an order that puts a word operator between a
+// short symbolic operator and a longer one starting with it (prefix and infix
+// uses of one symbol included)
+var tableCases = []tableCase{
+	{[]oper.Operator{{Kind: "*", BP: 8, Fixity: oper.INFIX_L}, {Kind: "mod", BP: 8, Fixity: oper.INFIX_L}, {Kind: "**", BP: 9, Fixity: oper.INFIX_R}}, "a ** b * c mod d", "(((a ** b) * c) mod d)"},
+	{[]oper.Operator{{Kind: "-", BP: 10, Fixity: oper.PREFIX}, {Kind: "-", BP: 7, Fixity: oper.INFIX_L}, {Kind: "mod", BP: 8, Fixity: oper.INFIX_L}, {Kind: "--", BP: 3, Fixity: oper.INFIX_R}}, "a -- b - c", "(a -- (b - c))"},
+	{[]oper.Operator{{Kind: "<", BP: 5, Fixity: oper.INFIX_N}, {Kind: "in", BP: 5, Fixity: oper.INFIX_N}, {Kind: "<=", BP: 5, Fixity: oper.INFIX_N}, {Kind: "<=>", BP: 4, Fixity: oper.INFIX_L}}, "a <= b <=> c < d", "((a <= b) <=> (c < d))"},
+	{[]oper.Operator{{Kind: "|", BP: 3, Fixity: oper.INFIX_L}, {Kind: "xor", BP: 3, Fixity: oper.INFIX_L}, {Kind: "||", BP: 2, Fixity: oper.INFIX_L}, {Kind: "|>", BP: 1.5, Fixity: oper.INFIX_L}}, "a | b || c xor d |> f", "(((a | b) || (c xor d)) |> f)"},
+}
+
+// H08_tables: whatever the order in which a table's operators were
+// registered, the tree is the one their powers and fixities dictate (the
+// longest registered operator is read at each position).
+func H08_tables() {
+	c := tableCases[sv.Choice("table", len(tableCases))]
+	ops := append([]oper.Operator{}, c.ops...)
+	// every rotation of the registration order
+	r := sv.Choice("rotation", len(ops))
+	ops = append(ops[r:], ops[:r]...)
+	if sv.Choice("reversed", 2) == 1 {
+		for i, j := 0, len(ops)-1; i < j; i, j = i+1, j-1 {
+			ops[i], ops[j] = ops[j], ops[i]
+		}
+	}
+	shape, class := parseWith(ops, c.src)
+	if class != "ok" || shape != c.want {
+		sv.Logf("%s: got %s (%s), expected %s", c.src, shape, class, c.want)
+	}
+	sv.Assert("tree-does-not-depend-on-registration-order", class == "ok" && shape == c.want)
+}
